@@ -143,8 +143,10 @@ PROPS = {
                                                        "verified; sign-then-verify (secp256k1) is NOT covered (DESIGN 5.C17)"],
                 trusted_base=TB, explanation="string obligations are syntactic equalities of SMT string terms; the signature loop has an inductive invariant"),
     "C18": dict(level="proof", assumptions=COMMON + ["stdin / getpass answers are arbitrary strings; os.urandom(n) returns n arbitrary bytes",
-                                                       "scope: onboard (up to and including the onboarding call), unlock, changepin and the device-side onboarding/PIN methods; "
-                                                       "the public-key export (pubkeys.py) is NOT covered; 'the operation is carried out when the preconditions hold' only as: "
+                                                       "scope: onboard (up to and including the onboarding call), unlock, changepin, the public-key export and the device-side onboarding/PIN "
+                                                       "methods; export: each key is requested for the documented path of its name (table in the contract, independent of "
+                                                       "admin/pubkeys.py) and the JSON map written holds, per documented path, the uncompressed encoding of the device's answer "
+                                                       "(json.dumps, the text-file writes and the ecdsa re-encoding are assumed); 'the operation is carried out when the preconditions hold' only as: "
                                                        "normal return of do_unlock => exactly one unlock, normal return of do_changepin => the device acknowledged a PIN change"],
                 trusted_base=TB, explanation="dominance of every destructive device call by its preconditions, as assertions at the call sites over all paths"),
     "C16": dict(level="proof", assumptions=COMMON + ["A-CRYPTO: element validity is an uninterpreted predicate",
